@@ -335,3 +335,28 @@ def s_int_lists_dict(ex, args, kwargs, st, node):
 
 
 SYMBOLIC.update({"forall_key_codes_in": s_forall_key_codes_in, "values_prefix_in_set": s_values_prefix_in_set, "int_lists_dict": s_int_lists_dict})
+
+
+# ---- identifiers (C20) ---------------------------------------------------------------------------------------------------
+def is_ascii_identifier(s):
+    import re as _re
+    return isinstance(s, str) and _re.fullmatch(r"[A-Za-z_][A-Za-z0-9_]*", s) is not None
+
+
+def s_is_ascii_identifier(ex, args, kwargs, st, node):
+    from . import stdlib_model as M
+    v = ex.as_val(args[0], st, node)
+    return VBool(z3.And(v.is_tag("s"), M.is_identifier_ascii(v.payload("s"))))
+
+
+def is_keyword(s):
+    import keyword as _k
+    return _k.iskeyword(s)
+
+
+def s_is_keyword(ex, args, kwargs, st, node):
+    from . import stdlib_model as M
+    return M.iskeyword(ex, ex.need(ex.as_val(args[0], st, node), "s", st, node), st)
+
+
+SYMBOLIC.update({"is_ascii_identifier": s_is_ascii_identifier, "is_keyword": s_is_keyword})
